@@ -17,6 +17,8 @@ BATTERY = [
     "- x + y * 2", "! a && not b", "x ++ - y --", "c ? x : y", "f(x, 1) + g() + min(2, 3)", "[x, y, [1]]", "{x: 1, 2: y}", "x = 1; y = x + 1; f(y)", "AND [a, b] || x in [1, 2]",
     "- (x - y) - - z", "x == y ? f(x) : [g(x)]", "x", "f()", "[]", "{}", "1 + 2", "true", "x not in y", "(c ? 1 : 2) ? x : - y", "f(g(x), {1: [y]})", "a; b", "x = y = 3",
     "! x !", "++ x ++", "x ! + ! y", "not ++ x",
+    # deep trees: descriptors apply at every depth
+    "x" + " + 1" * 140, "[" * 130 + "x" + "]" * 130, "- " * 135 + "x", "f(" * 132 + "x" + ")" * 132, "x" + " ++" * 1 + " + y" * 129,
 ]
 
 
@@ -84,12 +86,58 @@ def spec_for(rnd, how, arg):
     return batches
 
 
+def concurrent_config(rnd, wd, name, profile, part):
+    """describe() on two threads while a third keeps re-registering the descriptor of one key: once the first
+    registration has returned, every rendering of that key must show *some* registered id, never the default,
+    and ids never go backwards within a thread"""
+    kind, nm, prog, pat = rnd.choice([("REFERENCE", "x", "x + y", "<R%d|x>"), ("FUNCTION", "f", "f(y) + 1", "<F%d|f|y>"), ("BINARY", "+", "y + z", "<B%d|+|y|z>"), ("UNARY", "-", "- y", "<U%d|-|y>"), ("LIST", "", "[y]", "<L%d|y>")])
+    n_reg = 300
+    steps = [{"op": "desc", "kind": kind, "name": nm, "id": 1000}]
+    writer = [{"op": "desc", "kind": kind, "name": nm, "id": 1001 + i} for i in range(n_reg)]
+    reader = [{"op": "parse", "text": prog, "want": "d"} for _ in range(n_reg * 2)]
+    steps.append({"op": "threads", "plans": [writer, reader, list(reader)], "jitter_ns": [0, 0, 500]})
+    run = common.run_vexec(steps, wd, name, profile, timeout=300)
+    kind_, detail = common.crash_verdict(run, "concurrent describe")
+    if kind_ is not None or not run.ended:
+        if kind_ in ("signal", "hang", "deadlock"):
+            part["violations"].append({"sig": ["crash", kind_, "concurrent"], "what": detail, "replay": None})
+        else:
+            part["inconclusive"].append("%s %s" % (kind_, detail))
+        return
+    th = run.steps()[1].get("threads", [])
+    import re
+    rx = re.compile(re.escape(pat).replace("%d", "([0-9]+)"))
+    for recs in th[1:]:
+        if not isinstance(recs, list):
+            part["violations"].append({"sig": ["thread-panicked", "concurrent"], "what": "a describing thread panicked", "replay": None})
+            continue
+        last = 0
+        for r in recs:
+            part["evaluations"] += 1
+            part["counts"]["concurrent_describes"] = part["counts"].get("concurrent_describes", 0) + 1
+            d = r.get("desc", "")
+            m = rx.search(d or "")
+            if not m:
+                part["violations"].append({"sig": ["default-during-reregistration", kind], "what": "while the %s descriptor of `%s` was being re-registered on another thread (a descriptor was registered at all times), describe() of `%s` rendered %r: no registered descriptor was used" % (kind, nm, prog, d), "replay": None})
+                return
+            i = int(m.group(1))
+            if i < last:
+                part["violations"].append({"sig": ["descriptor-went-backwards", kind], "what": "describe() used descriptor #%d after #%d" % (i, last), "replay": None})
+                return
+            last = i
+    part["classes"].add("concurrent:" + kind)
+
+
 def run_shard(desc):
     si, items, profile = desc
     rnd = common.rng(PROP, si)
     wd = common.workdir(PROP)
     part = {"evaluations": 0, "classes": set(), "violations": [], "samples": [], "abstained": 0, "inconclusive": [], "counts": {"configurations": 0, "describes": 0}}
     for ci, (how, arg) in enumerate(items):
+        if how == "concurrent":
+            concurrent_config(rnd, wd, "conc-%d-%d" % (si, ci), profile, part)
+            part["counts"]["configurations"] += 1
+            continue
         spec = spec_for(rnd, how, arg)
         steps, plan = config_steps(rnd, spec)
         run = common.run_vexec(steps, wd, "cfg-%d-%d" % (si, ci), profile)
@@ -138,6 +186,7 @@ def run(rep, tier):
     common.build("release")
     items = [("single", i) for i in range(9)] + [("pair", p) for p in itertools.combinations(KINDS, 2)] + [("samesym", i) for i in range(11)]
     items += [("random", i) for i in range(300 if tier == "quick" else 10000)]
+    items += [("concurrent", i) for i in range(64 if tier == "quick" else 1500)]
     nsh = 32 if tier == "quick" else 64
     shards = [(i, items[i::nsh], "release" if i % 2 else "verifdbg") for i in range(nsh)]
     for part in common.pmap(run_shard, shards):
